@@ -107,6 +107,40 @@ def finish (s : St) : St :=
 def runCur (s : St) (evs : List Ev) : St := evs.foldl stepCur s
 def runFix (s : St) (evs : List Ev) : St := finish (evs.foldl stepFix s)
 
+/-! ### watcher errors
+
+`fsnotify` reports on its `Errors` channel, among others, `ErrEventOverflow`: the kernel queue was
+full and events were DROPPED.  The loop leaves on any error and closes the signal channel; a receive
+from a closed channel succeeds at once, so the consumer (`case <-confChanged:` in `Core.run`) is woken
+and loads the file — this is what makes dropped events harmless. -/
+
+inductive Inp where
+  | ev (e : Ev)
+  | err (t : Nat)
+deriving Repr
+
+structure StX where
+  s : St
+  /-- the loop has left and closed the signal channel at this time -/
+  closed : Option Nat := none
+deriving Repr
+
+def stepX (x : StX) : Inp → StX
+  | .ev e => if x.closed.isSome then x else { x with s := stepFix x.s e }
+  | .err t => if x.closed.isSome then x else { x with closed := some (max t x.s.free) }
+
+def runX (c0 : Nat) (l : List Inp) : StX := l.foldl stepX { s := initSt c0 }
+
+def evsOf : List Inp → List Ev
+  | [] => []
+  | .ev e :: r => e :: evsOf r
+  | .err _ :: r => evsOf r
+
+def hasErr : List Inp → Bool
+  | [] => false
+  | .ev _ :: r => hasErr r
+  | .err _ :: _ => true
+
 /-! ### the property, on the level of the file system -/
 
 /-- an event that reports a change of what the watched path yields:
